@@ -204,7 +204,7 @@ class World(object):
             for e in msgs[self.nshown[a]:]:
                 ident = self.sent.get(e.getId())
                 tok = "X"
-                if ident is not None and payloads.canon(e) == ident[4]:
+                if ident is not None and payloads.canon(e) == ident[4] and payloads.content(e) == ident[5]:
                     tok = str(ident[3])
                 out.append("s:%d:%s:%s:%s:%d:%s" % (a, e.getId(), dest_of(e.getFrom()), part_of(e.getParticipant()), 1 if e.getType() == "media" else 0, tok))
             self.nshown[a] = len(msgs)
@@ -278,7 +278,7 @@ def run_case(chk, stream, case):
                 nsend += 1
                 to = w.clients[dst].jid if k == "u" else w.gjid[dst]
                 ent = payloads.build(tok, MessageMetaAttributes(id=str(mid), recipient=to))
-                w.sent[str(mid)] = (a, k, dst, tok, payloads.canon(ent))
+                w.sent[str(mid)] = (a, k, dst, tok, payloads.canon(ent), payloads.content(ent))
                 line = "appSend %d %s %d %d %d %d" % (a, k, dst, mid, 1 if payloads.is_media(tok) else 0, tok)
                 w.clients[a].send_entity(ent)
                 chk.hit("act:send-" + ("group" if k == "g" else "user"), "payload:" + payloads.kind_of(tok))
@@ -367,7 +367,7 @@ def run_case(chk, stream, case):
                 nsend += 1
                 to = w.clients[dst].jid if k == "u" else w.gjid[dst]
                 ent = payloads.build(tok, MessageMetaAttributes(id=str(mid), recipient=to))
-                w.sent[str(mid)] = (a, k, dst, tok, payloads.canon(ent))
+                w.sent[str(mid)] = (a, k, dst, tok, payloads.canon(ent), payloads.content(ent))
                 w.clients[a].send_entity(ent)
                 hist.append("appSend %d %s %d %d" % (a, k, dst, mid))
             try:
@@ -378,7 +378,7 @@ def run_case(chk, stream, case):
         # ------------------------------------------------------------ the property's clauses on the real run (script fully drained)
         ctx = "accounts=%d groups=%s actions=%s" % (case["accts"], case["groups"], hist)
         nbefore = len(fails)
-        for mid, (a, k, dst, tok, canon) in sorted(w.sent.items()):
+        for mid, (a, k, dst, tok, canon, content) in sorted(w.sent.items()):
             intended = [dst] if k == "u" else [m for m in case["groups"][dst] if m != a]
             frm = w.clients[a].jid if k == "u" else w.gjid[dst]
             for b in sorted(w.clients):
@@ -392,9 +392,9 @@ def run_case(chk, stream, case):
                                         % (ctx, mid, payloads.kind_of(tok), a, k, dst, len(got), b)))
                     continue
                 e = got[0]
-                if payloads.canon(e) != canon or e.getFrom() != frm or (k == "g" and e.getParticipant() != w.clients[a].jid) or (k == "u" and e.getParticipant() is not None):
+                if payloads.canon(e) != canon or payloads.content(e) != content or e.getFrom() != frm or (k == "g" and e.getParticipant() != w.clients[a].jid) or (k == "u" and e.getParticipant() is not None):
                     fails.append(oracle("C03:content-or-origin-altered", "%s: message %s arrived at %d with from=%s participant=%s content-equal=%s"
-                                        % (ctx, mid, b, e.getFrom(), e.getParticipant(), payloads.canon(e) == canon)))
+                                        % (ctx, mid, b, e.getFrom(), e.getParticipant(), payloads.canon(e) == canon and payloads.content(e) == content)))
                 rc = [x for x in w.clients[a].seen("receipt") if x.getId() == mid and x.getType() is None and
                       ((k == "u" and x.getFrom() == w.clients[b].jid) or (k == "g" and x.getParticipant() == w.clients[b].jid))]
                 if not rc:
@@ -411,7 +411,7 @@ def run_case(chk, stream, case):
             if dirn != "c2s" or n.tag != "message":
                 continue
             blob = b"\x00".join(sim.node_bytes(n))
-            for mid, (a, k, dst, tok, canon) in w.sent.items():
+            for mid, (a, k, dst, tok, canon, content) in w.sent.items():
                 for sec in payloads.secrets(tok) + [canon]:
                     if len(sec) < 12:
                         continue          # too short to tell from a coincidence in ciphertext (empty text body)
